@@ -17,6 +17,7 @@ def run(rep):
     l4(rep, w)
     l5(rep, w)
     l6(rep, w)
+    l7(rep, w)
 
 
 def first_getter_from(f, b, limit=6):
@@ -380,3 +381,42 @@ def l6(rep, w, prop='C17'):
                 'through the wrong chunk (wrong line, or an out-of-bounds panic in runtime_error)' % p_, f.loc())
     if n < 2:
         raise Broken(prop, 'floor', 'frame-removing functions found: %d' % n)
+
+
+def l7(rep, w):
+    """compile errors are located by the token handed to error_at. Tokens made up by the compiler itself (Token::from_string("super"),
+    "self", the hidden loop variable) carry no position: line 0, kind Eof. None of them may reach error_at."""
+    P = "yarel::compiler::Parser::<'a>::"
+    SYN = 'yarel::scanner::Token::from_string'
+    r = rep.rule('L7', 'no compiler-made token (Token::from_string: line 0) can be the token a compile error is reported at', floor=4)
+    sites = c01.callers_of(w, P + 'error_at')
+    if len(sites) < 4:
+        raise Broken('C17', 'floor', 'callers of error_at: %d' % len(sites))
+
+    def synthetic_roots(f, local, depth, seen):
+        """can `local` of f hold a Token::from_string token? follows parameters to the call sites of f (bounded)"""
+        out = []
+        for q in origins(f).get(local, ()):
+            root = q[0]
+            if root[0] == 'call' and root[2] == SYN:
+                out.append(f.path)
+            elif root[0] == 'arg' and depth > 0:
+                k = root[1]
+                for (g, bi, t) in c01.callers_of(w, f.path):
+                    if (g.path, bi, k) in seen or len(t['args']) < k:
+                        continue
+                    seen.add((g.path, bi, k))
+                    pl = op_place(t['args'][k - 1])
+                    if pl is not None:
+                        out += synthetic_roots(g, pl['l'], depth - 1, seen)
+        return out
+    for (f, bi, t) in sorted(c01.callers_of(w, P + 'emit_byte_for_token'), key=lambda x: (x[0].path, x[1])):
+        pl = op_place(t['args'][2])
+        via = synthetic_roots(f, pl['l'], 3, set()) if pl is not None else []
+        r.check(not via, '%s -> emit_byte_for_token' % f.path.replace(P, ''), 'the token whose line is recorded for this instruction can be one made by Token::from_string (in %s): '
+                'a run-time error at this instruction is reported at line 0' % sorted(set(via))[:3], f.loc(t.get('sp')))
+    for (f, bi, t) in sorted(sites, key=lambda x: (x[0].path, x[1])):
+        pl = op_place(t['args'][1])
+        via = synthetic_roots(f, pl['l'], 3, set()) if pl is not None else []
+        r.check(not via, '%s -> error_at' % f.path.replace(P, ''), 'the token passed to error_at here can be one made by Token::from_string (in %s): the compile error is reported at '
+                'line 0 instead of the line of the offending source token' % sorted(set(via))[:3], f.loc(t.get('sp')))
